@@ -5,6 +5,7 @@ package main
 // the final directory, bounded (<= 50 ms) delays at guarded yield points.
 
 import (
+	"bytes"
 	"fmt"
 	"hash/crc32"
 	"os"
@@ -96,7 +97,99 @@ func syntheticZone(fallBack time.Time) (*time.Location, error) {
 	return time.LoadLocationFromTZData("synthetic-fallback", b)
 }
 
+// c13HookClock: events reach the rolling appender through Append carrying a time that does NOT come from the wall clock (the
+// public TimeNow hook may return a frozen, request-scoped or skewed time). Files are named after, and rotated by, the real
+// time of the write: one writer, one event at a time, across real boundaries.
+func c13HookClock(w *W) {
+	dir := filepath.Join(w.Spec.Dir, w.Spec.Name+".d")
+	_ = os.RemoveAll(dir)
+	_ = os.MkdirAll(dir, 0755)
+	defer os.RemoveAll(dir)
+	variant := []string{"frozen", "ahead-90s", "year-2001", "zero"}[w.Spec.Shard%4]
+	cs := map[string]any{"mode": "hookclock", "event_time": variant, "boundaries": w.Spec.N}
+	all := log.LevelRange{MinLevel: log.NoneLevel, MaxLevel: log.MaxLevel}
+	rl := &log.RollingFileLogger{LoggerBase: log.LoggerBase{Name: "hc", Level: all}, FileDir: dir, FileName: "hc.log", Rotation: log.TimeRotation{Interval: time.Second}, MaxAge: 24}
+	if err := rl.Start(); err != nil {
+		w.Violate("C13:start-failed", "Start failed: "+err.Error(), cs)
+		return
+	}
+	t0 := time.Now()
+	evTime := func() time.Time {
+		switch variant {
+		case "frozen":
+			return t0
+		case "ahead-90s":
+			return time.Now().Add(90 * time.Second)
+		case "year-2001":
+			return time.Date(2001, 1, 1, 0, 0, 0, 0, time.UTC)
+		}
+		return time.Time{}
+	}
+	type wr struct {
+		id         string
+		start, end time.Time
+	}
+	var wrs []wr
+	stopAt := t0.Truncate(time.Second).Add(time.Duration(w.Spec.N)*time.Second + 500*time.Millisecond)
+	for i := 0; time.Now().Before(stopAt); i++ {
+		id := fmt.Sprintf("id-hc%d-%d", w.Spec.Shard, i)
+		e := log.GetEvent()
+		e.Level, e.Time, e.Tag, e.Fields = log.InfoLevel, evTime(), "c13", []log.Field{log.Msg(id)}
+		x := wr{id: id, start: time.Now()}
+		rl.Append(e)
+		x.end = time.Now()
+		wrs = append(wrs, x)
+		time.Sleep(25 * time.Millisecond)
+	}
+	rl.Stop()
+	where := map[string][]time.Time{}
+	ents, _ := os.ReadDir(dir)
+	for _, en := range ents {
+		m := c13nameRe.FindStringSubmatch(en.Name())
+		if m == nil || m[1] != "hc.log" {
+			w.Violate("C13:bad-file-name", fmt.Sprintf("unexpected entry %q in the log directory", en.Name()), cs)
+			continue
+		}
+		nt, _ := time.ParseInLocation("20060102150405", m[2], time.Local)
+		b, _ := os.ReadFile(filepath.Join(dir, en.Name()))
+		for _, ln := range bytes.Split(b, []byte("\n")) {
+			if id := idOf(ln); id != "" {
+				where[id] = append(where[id], nt)
+			}
+		}
+	}
+	bad := false
+	for _, x := range wrs {
+		f := where[x.id]
+		switch {
+		case len(f) != 1:
+			bad = true
+			w.Violate("C13:lost-write", fmt.Sprintf("[hookclock/%s] %s is in the files %d times", variant, x.id, len(f)), cs)
+		case f[0].After(x.end):
+			bad = true
+			w.Violate("C13:write-before-file-time", fmt.Sprintf("[hookclock/%s] %s completed at %s but sits in the file named %s", variant, x.id, x.end.Format("15:04:05.000"), f[0].Format("20060102150405")), cs)
+		case f[0].Before(x.start.Truncate(time.Second)):
+			bad = true
+			w.Violate("C13:stale-file-after-boundary", fmt.Sprintf("[hookclock/%s, one write at a time] %s started at %s but went to the older file %s (the event itself carries the time %s)", variant, x.id, x.start.Format("15:04:05.000"), f[0].Format("150405"), evTime().Format(time.RFC3339)), cs)
+		}
+		if bad {
+			break
+		}
+	}
+	w.Eval(int64(len(wrs)))
+	w.Count("records_written", int64(len(wrs)))
+	w.Count("files_created", int64(len(ents)))
+	if !bad {
+		w.Distinct("hookclock|" + variant)
+		w.Sample(map[string]any{"case": cs, "records": len(wrs), "files": len(ents)})
+	}
+}
+
 func c13Worker(w *W) {
+	if w.Arg("mode", "") == "hookclock" {
+		c13HookClock(w)
+		return
+	}
 	mode := w.Arg("mode", "continuous")
 	W := w.ArgInt("writers", 4)
 	interval := time.Duration(w.ArgInt("interval_s", 1)) * time.Second
@@ -518,7 +611,7 @@ func c13Worker(w *W) {
 func init() {
 	register(&Prop{
 		ID: "C13", Level: "exploration", MinDistinct: 5, Worker: c13Worker,
-		Rule: "RollingFileAppender built directly with 1 s / 2 s intervals, crossed by real boundaries (quick 3-4, thorough up to 10) in parallel child processes: continuous writers (4-16), bursts aligned just before each boundary (16 writers x 20 records), a sequential writer that also idles across whole intervals, 8 writers that are all silent for more than a whole interval and then resume at the same instant (3+ times), a sequential writer whose appender object is stopped and started again between writes, retentions of 876000 / 5000000 / 2147483647 hours, Stop/Start cycles several times per second, Start on a directory pre-seeded with same-named files for the current and following seconds, a mix with one-byte writes, a run in which one writer is stalled for more than two whole intervals inside Write, a run in which the rotating goroutine is overtaken by the next rotation and a single writer then continues alone, and a sequential run during which the local clock falls back by one hour (synthetic time zone); " +
+		Rule: "RollingFileAppender built directly with 1 s / 2 s intervals, crossed by real boundaries (quick 3-4, thorough up to 10) in parallel child processes: continuous writers (4-16), bursts aligned just before each boundary (16 writers x 20 records), a sequential writer that also idles across whole intervals, 8 writers that are all silent for more than a whole interval and then resume at the same instant (3+ times), a sequential writer whose appender object is stopped and started again between writes, events appended one at a time whose own time field is frozen / 90 s ahead / in 2001 / zero (rotation and names follow the real time of the write), retentions of 876000 / 5000000 / 2147483647 hours, Stop/Start cycles several times per second, Start on a directory pre-seeded with same-named files for the current and following seconds, a mix with one-byte writes, a run in which one writer is stalled for more than two whole intervals inside Write, a run in which the rotating goroutine is overtaken by the next rotation and a single writer then continues alone, and a sequential run during which the local clock falls back by one hour (synthetic time zone); " +
 			"records are self-describing frames of 12 B - 64 KiB with client-side snapshot (length+CRC) and wall-clock start/end stamps; a guarded yield point holds half of the writers that loaded the current file within 12 ms of a boundary until another writer has completed the rotation (at most 300 ms after the boundary), and adds 0-4 ms inside rotate() (all below one interval). " +
 			"Oracle over the final directory: every record whole, exactly once, in exactly one file named <name>.<14 digits>; no record in a file whose name-time is after the write completed; sequential mode: a write started in interval k is not in a file older than interval k; pre-existing content preserved; one-byte writes counted. Non-trivial/distinct = distinct (mode, writers, interval, build flavour, files created) runs that held.",
 		Assumptions: []string{"delays injected at yield points stay <= 300 ms, below one rotation interval, except in the stalled-writer run, where one writer is held for 2.3 intervals between loading the current file and writing (two rotations pass)", "wall clock is monotone during a run; file-name times are compared at one-second resolution"},
@@ -539,6 +632,11 @@ func init() {
 			add("sequential", 1, 1, "plain", nb+1)
 			add("idleburst", 8, 1, "plain", nb+4)
 			add("seqrestart", 1, 1, "plain", nb+1)
+			for i := 0; i < 4; i++ { // event times that do not come from the wall clock (frozen, ahead, 2001, zero)
+				add("hookclock", 1, 1, "plain", nb)
+				specs[len(specs)-1].Name += fmt.Sprint(i)
+				specs[len(specs)-1].Shard = i
+			}
 			// "keep for ever" retentions: the scan that follows every rotation must not touch anything
 			for i, ma := range []string{"876000", "5000000", "2147483647"} {
 				add("continuous", 2, 1, "plain", nb)
